@@ -1,6 +1,7 @@
 import SJ.Props.C09
 import SJ.Props.TypedSrc
 import SJ.Props.C09Stream
+import SJ.Props.StreamTyped
 #print axioms SJ.Props.C09.c09_slice_reader
 #print axioms SJ.Props.C09.c09_str_slice_ignored
 #print axioms SJ.Props.C09.c09_str_slice_value
@@ -18,3 +19,6 @@ import SJ.Props.C09Stream
 #print axioms SJ.Props.C09.c09_raw_sources
 #print axioms SJ.Props.C09.c09_raw_nested_sources
 #print axioms SJ.Props.C09.c09_raw_map_sources
+#print axioms SJ.Props.StreamTyped.c09_typed_stream_sources
+#print axioms SJ.Props.StreamTyped.c09_typed_stream_str_slice
+#print axioms SJ.Props.StreamTyped.c09_typed_stream_offsets
